@@ -220,11 +220,12 @@ class SV:
       func                : python descriptor object
     """
 
-    __slots__ = ("ty", "v", "loc")
+    __slots__ = ("ty", "v", "loc", "is_tuple")
 
     def __init__(self, ty: Ty, v, loc=None):
         self.ty, self.v = ty, v
         self.loc = loc  # syntactic origin for write-back of value-semantic containers
+        self.is_tuple = False  # a SEQ that stands for a Python tuple of unknown length (an opaque exception's args)
 
     def __repr__(self):
         return f"SV<{self.ty!r}:{self.v}>"
